@@ -370,3 +370,37 @@ pub fn run(case: &Val) -> Val {
     drop(app);
     Val::L(out)
 }
+
+/// Main loop of the three rolling bins.  Same protocol as `vh::main_loop` (one
+/// result line per case line, a panic is reported as "panic"), but the results
+/// are written to a private duplicate of the original stdout and fd 1 is
+/// redirected to stderr: `rotate` in the crate reports a failed compress with
+/// `println!`, which from a burst thread would block forever on a held stdout
+/// lock and from the main thread would inject a line into the protocol.
+pub fn main_loop_private() {
+    use std::io::{BufRead, Write};
+    use std::os::unix::io::FromRawFd;
+    std::panic::set_hook(Box::new(|_| {}));
+    let out_fd = unsafe { libc::dup(1) };
+    assert!(out_fd >= 0);
+    unsafe { libc::dup2(2, 1) };
+    let mut out = unsafe { std::fs::File::from_raw_fd(out_fd) };
+    let stdin = std::io::stdin();
+    let mut buf = String::new();
+    for line in stdin.lock().lines() {
+        let line = line.expect("stdin");
+        if line.trim().is_empty() {
+            continue;
+        }
+        let case = vh::val::parse(&line);
+        let res = match std::panic::catch_unwind(std::panic::AssertUnwindSafe(|| run(&case))) {
+            Ok(v) => v,
+            Err(_) => Val::panic(),
+        };
+        buf.clear();
+        vh::val::print(&res, &mut buf);
+        buf.push('\n');
+        out.write_all(buf.as_bytes()).unwrap();
+        out.flush().unwrap();
+    }
+}
